@@ -46,6 +46,17 @@ func ParseChunkSize(r network.Reader) (int, error) {
 		if c == ' ' {
 			continue
 		}
+		// Skip chunk extensions (RFC 7230 section 4.1.1: a recipient MUST ignore unrecognized ones).
+		if c == ';' {
+			for c != '\r' {
+				if c, err = r.ReadByte(); err != nil {
+					return -1, errors.NewPublic(fmt.Sprintf("cannot read '\r' char at the end of chunk size: %s", err))
+				}
+				if c == '\n' {
+					return -1, errors.NewPublic("unexpected '\n' in chunk extension")
+				}
+			}
+		}
 		if c != '\r' {
 			return -1, errors.NewPublic(
 				fmt.Sprintf("unexpected char %q at the end of chunk size. Expected %q", c, '\r'),
